@@ -236,7 +236,17 @@ pub fn run_writer(j: &Value, t: &mut Trace, run_id: usize) -> Option<(Vec<u8>, V
         "sample" => pcm.len(),
         _ => pcm.len() / channels as usize,
     };
-    let writes: Vec<usize> = j["writes"].as_array().map(|a| a.iter().map(|x| x.as_u64().unwrap() as usize).collect()).unwrap_or_else(|| vec![total_units]);
+    let writes: Vec<usize> = if let Some(cuts) = j["write_cuts"].as_array() {
+        // fractions of the unit stream -> strictly increasing unit positions -> write sizes that add up to the whole input
+        let mut pos: Vec<usize> = cuts.iter().map(|f| (f.as_f64().unwrap_or(0.0) * total_units as f64) as usize).filter(|p| *p > 0 && *p < total_units).collect();
+        pos.sort();
+        pos.dedup();
+        pos.push(total_units);
+        let mut prev = 0;
+        pos.iter().map(|p| { let n = p - prev; prev = *p; n }).collect()
+    } else {
+        j["writes"].as_array().map(|a| a.iter().map(|x| x.as_u64().unwrap() as usize).collect()).unwrap_or_else(|| vec![total_units])
+    };
     let mut pos = 0usize;
     let mut failed = false;
     for n in writes {
